@@ -53,11 +53,14 @@ ASSUMPTIONS = ["cloudpickle round-trips the values used (strings, lists, object 
                "sequential run (parallel=False); executors are C03; interrupted runs are C05",
                "load_xarray_dataset is observed structurally (variable names and dims), relative to whether pipefunc's own "
                "in-memory labelling (xarray_dataset_from_results) succeeds for the same run; labelling itself is C19",
-               "only the three importable storage backends (zarr backends cannot be imported in this environment)"]
+               "only the three importable storage backends (zarr backends cannot be imported in this environment)",
+               "theorems: names contain no ',' and no '/', MapSpec arrays have rank >= 1 (valid_request, Corr/Valid_C04.v); "
+               "the file system is a finite map with atomic single operations; paths are an abstract type whose rendering "
+               "(FSStore.path_rel) is tied to the real file names by the observed folder listing"]
 TRUSTED = ["Model/RunInfoCodec.v, Model/FSStore.v mirror _run_info.py / _load.py / _storage_array persist+load by hand",
            "Model/MapRun.v (C01) provides the run whose final state is written to the modelled folder",
-           "harness/props/c04_reload.py canonicalisation of RunInfo fields, arrays and folder snapshots",
-           "path abstraction FSStore.path <-> real relative file names is tied by the observed folder listing"]
+           "harness/props/c04_reload.py canonicalisation of RunInfo fields (type-strict: tuple vs list), arrays and folder snapshots",
+           "harness/props/c04_child.py worker interpreters (run workers exit before any fresh-interpreter reload starts)"]
 
 STORAGES = ["file_array", "dict", "shared_memory_dict"]
 WORKERS = 8
